@@ -1,0 +1,44 @@
+#ifndef WENCRY_VERIF_HOOKS
+#define WENCRY_VERIF_HOOKS
+/*
+Verification hooks. Without -DWENCRY_VERIF every macro below expands to nothing
+and the build is identical to the unhooked one.
+WV_POINT(kind, obj)      : a point where the calling thread is about to touch shared state
+                           without holding a lock (a deterministic scheduler may switch here)
+WV_EVENT(kind, obj, a, b): an observable pipeline event for an external monitor
+*/
+#ifdef WENCRY_VERIF
+extern "C" void wv_point(int kind, const void *obj);
+extern "C" void wv_event(int kind, const void *obj, long a, long b);
+#define WV_POINT(kind, obj) wv_point((kind), (obj))
+#define WV_EVENT(kind, obj, a, b) wv_event((kind), (obj), (long)(a), (long)(b))
+enum wv_point_kind
+{
+  WVP_GET_ENTRY = 100,   // worker about to look at its buffer cursor
+  WVP_WORKER_STATE,      // worker about to read the buffer state without the lock
+  WVP_WORKER_RETURN,     // worker leaves require_buffer_entry with a block (or NULL)
+  WVP_IO_STATE,          // I/O thread about to read a buffer state without the lock
+  WVP_IO_EXPORT,         // I/O thread about to write a buffer out
+  WVP_IO_LOAD_READ,      // I/O thread has read file data into the buffer
+  WVP_IO_LOAD_TOTAL,     // I/O thread has published the block count
+  WVP_IO_LOAD_NOW,       // I/O thread has reset the cursor
+  WVP_IO_LOAD_PAD,       // I/O thread has written the padding block
+  WVP_IO_TURN            // I/O thread iterates to the next buffer
+};
+enum wv_event_kind
+{
+  WVE_GROUP_BUF = 200, // obj = buflst base, a = count, b = sizeof(iobuffer)
+  WVE_GROUP_CTRL,      // obj = ctrl base,   a = count, b = sizeof(bufferctrl)
+  WVE_TAKE,            // obj = block pointer handed to the worker (or NULL), a = worker id, b = 0 first look / 1 after wait
+  WVE_STATE,           // obj = bufferctrl, a = new state, b = 0 set_ready / 1 set_update
+  WVE_FLUSH_BEGIN,     // a = buffer index
+  WVE_FLUSH_END,       // a = buffer index
+  WVE_FILL_BEGIN,      // a = buffer index
+  WVE_FILL_END,        // a = buffer index, b = load state
+  WVE_WORKER_ENTER     // a = worker id: worker enters require_buffer_entry (previous block no longer in use)
+};
+#else
+#define WV_POINT(kind, obj) ((void)0)
+#define WV_EVENT(kind, obj, a, b) ((void)0)
+#endif
+#endif
